@@ -323,11 +323,24 @@ def run_tcp_one(it):
                 s.advance(it.get("wait", 1.0))
             else:
                 raise ValueError(step)
+        if it["script"][-1] == "disable" and not passive:
+            # the endpoint is disabled: it stays NOT CONNECTED, also past the T5 idling of a connection thread that nobody stopped
+            net.listen_raw(5002)
+            n0 = len(net.log)
+            s.advance(st.timeouts.t5 + 2.0)
+            again = [e for e in net.log[n0:] if e[0] == "connect"]
+            if again or proto.connection_state.current.name != "NOT_CONNECTED":
+                rec["connects_after_disable"] = again[:3]
+                rec["state_after_disable"] = proto.connection_state.current.name
+                fail("connected-again-while-disabled")
+                return
 
     s = simrt.run(main, seed=it["seed"], policy=it["policy"], switch_prob=0.3, max_vtime=1e5, wall_timeout=120,
                   line_funcs=[tc.TcpConnection._start_receiver, tc.TcpConnection.disconnect, tc.TcpConnection._TcpConnection__receiver_thread,
                               tsc.TcpServerConnection.disable, tsc.TcpServerConnection._disconnected,
-                              tcc.TcpClientConnection.disable, tcc.TcpClientConnection._TcpClientConnection__connect_thread,
+                              tcc.TcpClientConnection.disable, tcc.TcpClientConnection._disconnected,
+                              tcc.TcpClientConnection._TcpClientConnection__start_connect_thread,
+                              tcc.TcpClientConnection._TcpClientConnection__connect_thread,
                               tcc.TcpClientConnection._TcpClientConnection__connect, tcc.TcpClientConnection._TcpClientConnection__idle,
                               tsc.TcpServerConnection._TcpServerConnection__server_thread],
                   line_cost=1e-3, pct_depth=3, pct_horizon=400,
@@ -361,6 +374,8 @@ TCP_SCRIPTS = {
                                          "disable"],
     "loss-and-disable-enable-at-once": ["enable", "connect", "select", "peer_close_fast", "disable_then_enable", "connect", "select", "disable"],
     "disable-enable-at-once-while-selected": ["enable", "connect", "select", "disable_then_enable", "connect", "select", "disable"],
+    # the endpoint is disabled for good while the close handling of the lost connection is under way: it stays NOT CONNECTED
+    "loss-and-disable-at-once-then-stay-disabled": ["enable", "connect", "select", "peer_close_fast", "disable"],
     "enable-disable-at-once": ["enable_fast", "disable"],
     "enable-disable-at-once-peer-listening": ["listen_peer", "enable_fast", "disable"],
     "enable-disable-at-once-then-again": ["listen_peer", "enable_fast", "disable", "enable", "connect", "select", "disable"],
@@ -403,7 +418,10 @@ def run(ctx: Ctx):
              "INVARIANT NewConnectionIsKept\nPROPERTY DisconnectReturns\n",
              "stop-flag handshake of disconnect() and the receiver thread across two connections: the new connection is kept, disconnect() returns"),
             ("TcpServerRestart", "DisconnectFirst = TRUE", ["DisconnectFirst = FALSE"], "INVARIANT ListensAfterEnable\nINVARIANT QuietWhileDisabled\nPROPERTY DisableReturns\n",
-             "restart of the listening thread by the close handling vs disable() / enable(): a live thread listens on its own socket afterwards")):
+             "restart of the listening thread by the close handling vs disable() / enable(): a live thread listens on its own socket afterwards"),
+            ("TcpClientRestart", "DisconnectFirst = TRUE\n Ticks = 3", ["DisconnectFirst = FALSE\n Ticks = 3"],
+             "INVARIANT QuietWhileDisabled\nPROPERTY StaysQuiet\nPROPERTY DisableReturns\n",
+             "restart of the connection thread by the close handling vs disable(): nothing connects once disable() has returned")):
         rl = tlc.run(spec, cfg_text=f"SPECIFICATION Spec\nCONSTANTS {consts}\n{props}", workdir=wd, what=spec + "_fixed", timeout=900, deadlock=False)
         tlc.require_ok(rl, spec)
         ctx.add_tlc(rl, f"{spec}: {what}")
@@ -525,6 +543,12 @@ def run(ctx: Ctx):
                     tid += 1
                     titems.append({"id": tid, "side": side, "name": name, "script": script, "policy": ["random", "fifo", "pct"][k % 3], "wait": 0.3,
                                    "gap": rng.choice([0, 0.001, 0.003, 0.01, 0.05]), "seed": rng.randrange(1 << 30), "lag": True})
+    # the client is disabled for good while its close handling runs (fix 8a4dcbb: a connection thread started behind disable()'s back)
+    name = "loss-and-disable-at-once-then-stay-disabled"
+    for k in range(36 if ctx.quick else 240):
+        tid += 1
+        titems.append({"id": tid, "side": "client", "name": name, "script": TCP_SCRIPTS[name], "policy": ["random", "fifo", "pct"][k % 3], "wait": 0.3,
+                       "gap": rng.choice([0, 0.001, 0.003, 0.01, 0.05]), "seed": rng.randrange(1 << 30)})
     trecs = [r_ for batch in pmap(run_tcp_batch, chunks(titems, 28)) for r_ in batch]
     ctx.traces += len(trecs)
     ctx.evaluations += len(trecs)
